@@ -167,6 +167,7 @@ def run_shard(spec):
             files, how = gen_input(rnd, root)
             big = any(re.search(r"(?i)\.?blk[bw]\s+(1777\d\d|6553\d|100000|77777)", t) for _, t in files)
             case = {"files": files, "handler": rnd.choice(["bare", "graphical", "record"]), "cli": (i % 100 == 0) or (bool(big) and i % 2 == 0), "root": root,
+                    "charset": rnd.choice(["bk", "bk", "bk", "utf-8", "koi8-r", "cp1251"]),     # multi-byte and other single-byte output charsets
                     "wctl": rnd.choice(["everything", "everything", "default", "nothing", "ids-off", "ids-off"]), "wseed": rnd.randrange(1 << 30)}
             try:
                 vs, info = run_one(case, cnt)
@@ -352,14 +353,14 @@ def run_one(case, cnt):
     budget = 3_000_000 + 30_000 * nlines
     rec = asm.Recorder()
     shown = []
-    o = asm.assemble(files, budget=budget, wall=300, handler=make_handler(case["handler"], rec, case, shown))
+    o = asm.assemble(files, charset=case.get("charset", "bk"), budget=budget, wall=300, handler=make_handler(case["handler"], rec, case, shown))
     o.events = rec.events
     texts = [t for _, t in files]
     if o.cls == "nonterm" and not huge_repeat(o) and known_key(texts, o) is None and _CONFIRMED_NONTERM[0] < 1:
         # many lazily sized statements before the base is known cost O(n^3) steps: slow, but finite.  Decide with a 40x budget.
         rec = asm.Recorder()
         shown = []
-        o2 = asm.assemble(files, budget=40 * budget, wall=900, handler=make_handler(case["handler"], rec, case, shown))
+        o2 = asm.assemble(files, charset=case.get("charset", "bk"), budget=40 * budget, wall=900, handler=make_handler(case["handler"], rec, case, shown))
         o2.events = rec.events
         if o2.cls == "nonterm" and finishes_unmonitored(files, case.get("charset", "bk")):
             # a few hundred lazily sized statements can cost more than 40 budgets and still end (minutes): the same input, unmonitored,
@@ -432,6 +433,8 @@ def cli_cross_check(case, o, cnt):
                 f.write(text)
             argv.append(name)
         argv += ["--report-format", "bare" if case["handler"] == "bare" else "graphical", "-o", os.path.join(scratch, "out.bin")]
+        if case.get("charset", "bk") != "bk":
+            argv += ["--charset", case["charset"]]
         if case.get("wseed", 0) % 2 or o.cls == "ok":
             argv.append("--lst")          # the listing is produced from the same symbol table: whatever the names look like
         r = cli.run_cli(argv, root, scratch, timeout=300, tag="x")
